@@ -390,6 +390,19 @@ theorem maskSift_ratio_smul_neg (c : Rat) (hc : c < 0) (σ : Nat → Pool.Schedu
   cases Mask.maskSiftLoop (fun _ => Pool.Schedule.roundRobin cfg.p 1) X unit std cfg (Mask.maskFreqs src cap).2 x 0 []
     (Mask.maskFreqs src cap).1 <;> rfl
 
+/-- `c < 0` with the documented waveform (`Mask.unitOf cosTurn n`: sample `t` of unit mask `i` is `cosTurn (f·t + i/p)`,
+    C07.mask_phase_grid): the half-turn closure is not a hypothesis on a mask table any more — it follows
+    (`Mask.unitOf_shiftClosed`) from the one oracle fact `cos(2π(x + 1/2)) = −cos(2πx)` and the even number of phases. -/
+theorem maskSift_ratio_smul_neg_cos (c : Rat) (hc : c < 0) (σ : Nat → Pool.Schedule) (nproc : Nat)
+    (X X' : Sig → Sig × Bool) (hX : Mask.XSmul c X X') (cosTurn : Rat → Rat)
+    (hcos : ∀ x, cosTurn (x + 1 / 2) = - cosTurn x) (n : Nat) (std : Sig → Rat)
+    (hstd : Mask.StdAbsHom c std) (cfg : Mask.Cfg) (hmode : cfg.mode ≠ .abs) (hσ : ∀ k, (σ k).Valid cfg.p nproc)
+    (heven : cfg.p % 2 = 0) (src : Mask.FreqSrc) (cap : Nat) (x : Sig) :
+    Mask.maskSift σ X' (Mask.unitOf cosTurn n) std (Mask.scaleCfg c cfg) src cap (Sig.smul c x)
+      = (Mask.maskSift σ X (Mask.unitOf cosTurn n) std cfg src cap x).map fun r => (r.1.map (Sig.smul c), r.2) :=
+  maskSift_ratio_smul_neg c hc σ nproc X X' hX _ std hstd cfg hmode hσ heven
+    (Mask.unitOf_shiftClosed cosTurn hcos n cfg.p heven) src cap x
+
 /-! ## Non-vacuity: the hypotheses are met on concrete, non-trivial inputs -/
 
 /-- an interpolant meeting both oracle contracts: the sum of the first and the last magnitude -/
